@@ -216,6 +216,8 @@ EXTRA_ENGINES = [
     ("Operators", ["C02"], "TLA+ definitions of the operator objects the expression grammar does not reach (exact rationals with NaN); every call "
                            "over short vectors replayed"),
     ("StDbscan", ["C11"], "TLA+ state machine of segmentation.stdbscan as coded (scan / expand / close); final columns replayed for every small input"),
+    ("TrackShare", ["C04"], "TLA+ heap model of which tracks share which list / Obs objects (constructor keeps the list, slices share observations, copy is deep); "
+                            "every call history replayed"),
     ("BoundingBox", ["C19"], "TLA+ model of the mutable Bbox over shared corner objects; every operation history replayed"),
     ("TrackEdit", ["C01"], "TLA+ model of the feature table under edits of the observation list, partial effects of failing calls included; every "
                            "history replayed"),
